@@ -30,7 +30,7 @@ def parse_key(k):
 
 def run(rep, tier, seed):
     from algopy import exact_interpolation as ei
-    maxn, maxd, maxcard = (4, 5, 40) if tier == "quick" else (5, 5, 130)
+    maxn, maxd, maxcard = (4, 6, 40) if tier == "quick" else (5, 6, 130)
     res = tlc_ok(run_tlc("MC_Interp", CFG % (maxn, maxd, maxcard, "TRUE"), workers=16, timeout=3000), "MC_Interp")
     rep.add_tlc(res, "MC_Interp")
     if not res.records:
@@ -69,6 +69,28 @@ def run(rep, tier, seed):
         rep.replayed(len(real_idx))
         rep.sample({"N": N, "d": d, "i": real_idx[min(1, len(real_idx) - 1)],
                     "spec_row": {str(k): str(v) for k, v in spec[real_idx[min(1, len(real_idx) - 1)]].items()}})
+    # beyond TLC's integer range (32-bit rationals overflow from d = 7 on): the defining identity of Interp.tla,
+    # sum_j Gamma(i,j) ray_j^alpha = [i = alpha], evaluated on the implementation's Gamma with the exact integer matrix V;
+    # the multi-index set by its definition (all N-tuples of naturals with sum d)
+    for (N, d) in [(1, 7), (1, 8), (2, 7), (2, 8), (3, 7), (1, 9), (2, 9), (1, 10)]:
+        sig = "N=%d,d=%d" % (N, d)
+        J = ei.generate_multi_indices(N, d)
+        real_idx = [tuple(int(v) for v in row) for row in J]
+        want = set(t for t in itertools.product(range(d + 1), repeat=N) if sum(t) == d)
+        rep.case((N, d, "identity beyond the TLC bound"), nontrivial=True)
+        if len(set(real_idx)) != len(real_idx) or set(real_idx) != want:
+            rep.violation("multi_indices set " + sig, {"N": N, "d": d, "indices": real_idx}); continue
+        Gamma, rays = ei.generate_Gamma_and_rays(N, d)
+        if rays.shape != J.shape or not (rays == J).all():
+            rep.violation("rays " + sig, {"N": N, "d": d, "rays": rays.tolist()})
+        V = numpy.array([[float(numpy.prod([Fraction(int(r[n])) ** int(al[n]) for n in range(N)])) for al in real_idx] for r in rays])
+        # float Gamma: the rounding error of row i is bounded by eps * sum_j |Gamma_ij| |V_j alpha|
+        bound = abs(Gamma) @ abs(V)
+        err = abs(Gamma @ V - numpy.eye(len(real_idx)))
+        if (err > 1e-9 * (1.0 + bound)).any():
+            a, b = numpy.unravel_index(numpy.argmax(err / (1.0 + bound)), err.shape)
+            rep.violation("identity " + sig, {"N": N, "d": d, "i": list(real_idx[a]), "alpha": list(real_idx[b]), "got": float((Gamma @ V)[a, b])})
+        rep.replayed(len(real_idx))
     # call histories: the result for (N, d) must not depend on earlier calls with another seed matrix S; rays = J . S
     for (N, d) in [k for k in sorted(rows) if k[0] >= 2][:6]:
         G0, r0 = ei.generate_Gamma_and_rays(N, d)
